@@ -75,6 +75,7 @@ fn main() {
           "C19" => sc_nested::replay_c19(&v, &mut out, &mut stats),
           "C04" => sc_nested::replay_c04(&v, &mut out, &mut stats),
           "C14" => sc_nested::replay_c14(&v, &mut out, &mut stats),
+          "TABLES" => sc_nested::replay_tables(&v, &mut out, &mut stats),
           "C16a" => sc_cov::replay_lookup(&v, &mut out, &mut stats),
           "CONE" => sc_cov::replay_cone(&v, &mut out, &mut stats, &mut rrng),
           "BMOC" => sc_bmoc::replay_bmoc(&v, &mut out, &mut stats, &mut bregs),
